@@ -247,6 +247,12 @@ def facts(ctx):
         ctx.brk("linter.go lintWithRegoRules structure ~ SelectProto/merge model (lock discipline, buffered errCh, "
                 "doneCh case re-polls errCh)", {"op": "facts.linter"}, r, want)
     ctx.notes.append("facts.linter: %s" % r)
+    g = ctx.impl([{"id": 0, "op": "facts.goroutines"}])[0].get("out") or {}
+    ctx.seen({"facts.goroutines": g}, ("facts.goroutines",))
+    bad = {k: v for k, v in g.items() if v}
+    if bad or not g:
+        ctx.brk("per-file goroutines write captured (shared) variables before taking the lock — the kernel model treats "
+                "parsing / evaluating one file as a pure function of that file", {"op": "facts.goroutines"}, g, {k: [] for k in g})
 
 
 def procs_and_concurrency(ctx, bases, ref_impl):
